@@ -10,6 +10,7 @@ import (
 	"encoding/hex"
 	"errors"
 	"math/big"
+	"sync"
 )
 
 var (
@@ -211,31 +212,36 @@ func IsCanonical(b []byte) bool {
 	return ok && bytes.Equal(p.Encode(), b)
 }
 
-var torsion []Point
+var (
+	torsion     []Point
+	torsionOnce sync.Once
+)
 
 // Torsion returns the 8 points of the torsion subgroup, Torsion()[i] = i*T8 for a point T8 of
 // order 8, found by clearing the prime-order component of the first suitable curve point.
+// Safe for concurrent use (the harness calls it from several goroutines at once).
 func Torsion() []Point {
-	if torsion != nil {
-		return torsion
-	}
-	for yv := int64(2); ; yv++ {
-		y := big.NewInt(yv)
-		x, ok := recoverX(y, 0)
-		if !ok {
-			continue
+	torsionOnce.Do(func() {
+		for yv := int64(2); ; yv++ {
+			y := big.NewInt(yv)
+			x, ok := recoverX(y, 0)
+			if !ok {
+				continue
+			}
+			t := fromAffine(x, y).Mul(L)
+			if t.Double().Double().IsIdentity() {
+				continue // order divides 4
+			}
+			ts := make([]Point, 8)
+			ts[0] = Identity()
+			for i := 1; i < 8; i++ {
+				ts[i] = ts[i-1].Add(t)
+			}
+			torsion = ts
+			return
 		}
-		t := fromAffine(x, y).Mul(L)
-		if t.Double().Double().IsIdentity() {
-			continue // order divides 4
-		}
-		torsion = make([]Point, 8)
-		torsion[0] = Identity()
-		for i := 1; i < 8; i++ {
-			torsion[i] = torsion[i-1].Add(t)
-		}
-		return torsion
-	}
+	})
+	return torsion
 }
 
 // HashModL is SHA-512(parts...) read as a little-endian integer mod L.
